@@ -43,6 +43,7 @@ func init() {
 	)
 	addSelfTests("C28",
 		mutation{"counts-swapped", "tun/server/route_cache.go", "		case fs.ErrNotExist:\n			numNotFound++\n		default:\n			numError++", "		case fs.ErrNotExist:\n			numError++\n		default:\n			numNotFound++", "loader"},
+		mutation{"failed-ttl-skipped-on-timeout", "tun/server/route_cache.go", "		ret.TTL = routeFailedTTL // also cache failed result with an even shorter ttl\n", "		if lookupCtx.Err() == nil {\n			ret.TTL = routeFailedTTL\n		}\n", "loader"},
 		mutation{"negative-cached-long", "tun/server/route_cache.go", "		ret.TTL = routeNegativeTTL // cache negative result with shorter ttl", "		ret.TTL = routePositiveTTL // cache negative result with shorter ttl", "loader"},
 		mutation{"remote-first", "tun/server/route_cache.go", "		return filtered[i].GetTunnelDestination().GetAddress() == s.TunnelTransport.Identity().GetAddress()", "		return filtered[i].GetTunnelDestination().GetAddress() != s.TunnelTransport.Identity().GetAddress()", "comparator"},
 		mutation{"slots-zero-based", "tun/server/route_cache.go", "		k := i + 1\n", "		k := i\n", "loader"},
@@ -333,6 +334,18 @@ func runC28(c *Ctx) {
 		return true
 	})
 	c.Floor("loader result assignments", n, 6)
+	// every result carries an explicit TTL: the cache treats the zero TTL as "never
+	// expires", so an exit that skipped the assignment caches its (negative, failed or
+	// positive) result for ever
+	_, noTTL := ld.Reach(nil, func(m ast.Node) bool {
+		as, ok := m.(*ast.AssignStmt)
+		return ok && len(as.Lhs) == 1 && types_ExprString(as.Lhs[0]) == "ret.TTL"
+	}, nil)
+	var at token.Pos = ld.Decl.Pos()
+	if len(noTTL) > 0 && noTTL[0].Ret != nil {
+		at = noTTL[0].Ret.Pos()
+	}
+	c.Ob("loader", "routeCacheLoader#every-exit-sets-a-ttl", at, len(noTTL) == 0, fmt.Sprintf("on every path to every exit ret.TTL is assigned (a zero TTL means no expiry in the cache: the result would outlive even the positive ones); %d exit(s) reachable without an assignment", len(noTTL)))
 	// counters
 	nc := 0
 	ast.Inspect(ld.Body, func(x ast.Node) bool {
